@@ -919,3 +919,114 @@ func (c *Ctx) SuccessReturns(fn *ssa.Function, o Outcome) []*ssa.Return {
 	}
 	return out
 }
+
+// ---------------------------------------------------------------- rejections
+
+// Rejection is a branch edge after which outcome o is no longer reachable
+// (within the current loop iteration: back edges are not followed), although
+// it was reachable before the branch.
+type Rejection struct {
+	Block    *ssa.BasicBlock
+	Succ     int
+	Facts    []Fact // facts on the rejecting edge
+	Accepted []Fact // facts on the sibling (accepting) edge
+}
+
+// Rejections lists the rejecting branch edges of fn for outcome o.
+func (c *Ctx) Rejections(fn *ssa.Function, o Outcome) []Rejection {
+	can := map[*ssa.BasicBlock]bool{}
+	// success exits
+	for _, r := range c.SuccessReturns(fn, o) {
+		can[r.Block()] = true
+	}
+	// natural loop bodies per header
+	loop := map[*ssa.BasicBlock]map[*ssa.BasicBlock]bool{}
+	for _, u := range fn.Blocks {
+		for _, h := range u.Succs {
+			if !h.Dominates(u) {
+				continue
+			}
+			if loop[h] == nil {
+				loop[h] = map[*ssa.BasicBlock]bool{h: true}
+			}
+			stack := []*ssa.BasicBlock{u}
+			for len(stack) > 0 {
+				x := stack[len(stack)-1]
+				stack = stack[:len(stack)-1]
+				if loop[h][x] {
+					continue
+				}
+				loop[h][x] = true
+				stack = append(stack, x.Preds...)
+			}
+		}
+	}
+	// A back edge to header h is neutral (the iteration did not reject) iff
+	// success is reachable through an exit taken at the header itself, i.e.
+	// the loop is a for-all loop whose success lies after it.  In a search
+	// loop (success inside the body, exit = failure) a back edge rejects the
+	// current candidate.
+	exitCan := func(h *ssa.BasicBlock) bool {
+		for _, t := range h.Succs {
+			if !loop[h][t] && can[t] {
+				return true
+			}
+		}
+		return false
+	}
+	changed := true
+	for changed {
+		changed = false
+		for _, b := range fn.Blocks {
+			if can[b] {
+				continue
+			}
+			for _, s := range b.Succs {
+				if s.Dominates(b) {
+					if exitCan(s) {
+						can[b] = true
+						changed = true
+						break
+					}
+					continue
+				}
+				if can[s] {
+					can[b] = true
+					changed = true
+					break
+				}
+			}
+		}
+	}
+	var out []Rejection
+	for _, b := range fn.Blocks {
+		ifi, ok := b.Instrs[len(b.Instrs)-1].(*ssa.If)
+		if !ok || !can[b] {
+			continue
+		}
+		for i, s := range b.Succs {
+			rejecting := !can[s] || (s.Dominates(b) && !exitCan(s))
+			if !rejecting {
+				continue
+			}
+			if _, isPanic := s.Instrs[len(s.Instrs)-1].(*ssa.Panic); isPanic && len(s.Succs) == 0 {
+				continue // guards in front of a panic are E8's business, not a policy rejection
+			}
+			// the return in block b may be phi-sensitive: if s is a return block
+			// that can succeed only through other predecessors, it is rejecting here
+			out = append(out, Rejection{Block: b, Succ: i, Facts: EdgeFacts(ifi.Cond, i == 0), Accepted: EdgeFacts(ifi.Cond, i != 0)})
+		}
+	}
+	return out
+}
+
+// Listed reports whether the accepting sibling of a rejection establishes one
+// of the listed gates (directly or through a callee summary).
+func (c *Ctx) Listed(r Rejection, gates []Gate) (string, bool) {
+	for _, g := range gates {
+		if c.factsEstablish(r.Accepted, g) {
+			return g.Key, true
+		}
+	}
+	return "", false
+}
